@@ -1,7 +1,7 @@
 From Coq Require Import List NArith ZArith Bool.
 From SK Require Import lib.LGraph lib.Mono.
 From SK Require model.C06_Model model.C11_Model.
-From SK Require Import model.C03_Model model.C05_Model proof.C05_Proof proof.C05_Glue proof.C05_Pipe proof.C05_Prep proof.C05_Comp proof.C05_Main proof.C05_Order proof.C05_Sub proof.C05_Set proof.C05_Result proof.C05_AllStrat proof.C05_PrepOrder proof.C05_Final proof.C05_Default proof.C05_Rewrite proof.C05_Capstone proof.C05_Refuted proof.C05_Cap proof.C05_Thms.
+From SK Require Import model.C03_Model model.C05_Model proof.C05_Proof proof.C05_Glue proof.C05_Pipe proof.C05_Prep proof.C05_Comp proof.C05_Main proof.C05_Order proof.C05_Sub proof.C05_Set proof.C05_Result proof.C05_AllStrat proof.C05_PrepOrder proof.C05_Final proof.C05_Default proof.C05_Rewrite proof.C05_Capstone proof.C05_Refuted proof.C05_Cap proof.C05_AnyCap proof.C05_Partial proof.C05_PartialOrder proof.C05_PartialCap proof.C05_Thms.
 From SK Require Import lib.C06_Spec proof.C06_Comp.
 From SK Require proof.C11_Dedup.
 From Coq Require Import Permutation.
@@ -485,3 +485,82 @@ Theorem C05_comp_subset_capped_refuted :
     @glued_of (thr_of (Some 3%N)) 2%N host p = @glued_of (thr_of (Some 3%N)) 1%N host p.
 Proof. exact thm_comp_subset_capped_refuted. Qed.
 Print Assumptions C05_comp_subset_capped_refuted.
+
+(** (e) The clause of section 7 for EVERY cap, with no premise about the cap: exhaustive strategy, any rewriting of both
+    inputs (renumbering by (sg, pi), then any re-ordering of nodes, bonds and bond orientations of substrate, rule graph
+    and pattern) — the glued ITS graphs of the two writings correspond one to one up to [obs_eq].  By (b) and (c) both
+    searches are over the cap (two empty lists) or both are below it (section 7).  The premise [side_okb0] is [side_okb]
+    without "the number of embeddings is at most the cap" (first two clauses: what it guarantees; it follows from the
+    monitored [side_okb]); the run function [run_c05t] evaluates it on every compared writing of every case. *)
+Theorem C05_result_set_invariant_exhaustive_any_cap :
+  (forall host p, side_okb0 host p = true ->
+     p_flag p = false /\ gwf (host_c06 host) /\ gwf (pat_c06 (p_pat p)) /\
+     NoDup (node_ids (p_rc p)) /\ simple_edgesb (gedges (p_rc p)) = true /\
+     (forall a b x, In (a, b, x) (gedges (p_rc p)) -> In a (node_ids (p_rc p)) /\ In b (node_ids (p_rc p))) /\
+     (forall u, In u (node_ids (p_pat p)) -> In u (node_ids (p_rc p)))) /\
+  (forall (TH : Thr) host p, side_okb host p = true -> side_okb0 host p = true) /\
+  (forall (TH : Thr) (sg pi : N -> N), inj sg -> inj pi ->
+   forall (host host'' : hostg) (p p'' : prepared),
+     side_okb0 (relabel pi host) (relabel_prep sg p) = true -> side_okb0 host'' p'' = true ->
+     same_graph (relabel pi host) host'' -> same_graph (relabel sg (p_rc p)) (p_rc p'') ->
+     same_graph (relabel sg (p_pat p)) (p_pat p'') ->
+     (forall T, In T (glued_of 0%N host p) -> exists T'', In T'' (glued_of 0%N host'' p'') /\ obs_eq (relabel pi T) T'') /\
+     (forall T'', In T'' (glued_of 0%N host'' p'') -> exists T, In T (glued_of 0%N host p) /\ obs_eq (relabel pi T) T'')).
+Proof. exact thm_result_set_invariant_exhaustive_any_cap. Qed.
+Print Assumptions C05_result_set_invariant_exhaustive_any_cap.
+
+(** 15. SynReactor(partial=True): the raw matches of the PartialMatcher engine as the reactor configures it
+    ([partial_matches]: connected components of the pattern — [None] = the ValueError for a pattern without components —,
+    per-component search with strict_cc_count = False, combinations of k = n, n-1, ..., 1 components in itertools order,
+    back-tracking over embeddings that are disjoint in the host, merged mappings) and the matches kept by the symmetry
+    pruning are literally the renumbered ones when substrate and rule are renumbered — every strategy, every cap.
+    (Gluing a PARTIAL match completes the rule with wildcard atoms: not modelled; the result sets of this option are
+    compared across writings by the metamorphic oracle only.  Re-ordering of the inputs: not proved for this engine.) *)
+Theorem C05_partial_equivariant :
+  forall (TH : Thr) (strat : N) (sg pi : N -> N), inj sg -> inj pi ->
+  (forall (host : hostg) (pat : molg),
+     partial_matches strat (relabel pi host) (relabel sg pat) = option_map (map (mv sg pi)) (partial_matches strat host pat)) /\
+  (forall (host : hostg) (p : prepared),
+     partial_matches strat (relabel pi host) (p_pat (relabel_prep sg p))
+     = option_map (map (mv sg pi)) (partial_matches strat host (p_pat p)) /\
+     forall raw, partial_matches strat host (p_pat p) = Some raw ->
+       prune (p_rc (relabel_prep sg p)) (map (mv sg pi) raw) = map (mv sg pi) (prune (p_rc p) raw)).
+Proof. exact thm_partial_equivariant. Qed.
+Print Assumptions C05_partial_equivariant.
+
+(** 16. REFUTED for the option combination SynReactor(partial=True, embed_threshold=k) (the code is kept as it is; known
+    finding "partial-capped:invariant-rewriting"): in partial mode the reactor ALSO turns the cap into a result limit
+    max_results = k / 100 ([pmax_of]: the engines test `len(results) >= max_results`, so the effective limit is ceil(k/100)),
+    and a result limit keeps the first matches in enumeration order — which ones these are depends on the order in which
+    the substrate's atoms are stored.  Witness: thiol dimerisation (centre = the two sulfur atoms) on CCS.CS with
+    embed_threshold = 100 (limit 1): stored in the order 1..5 the single match is S2 -> atom 3 (the thiol of CCS), stored
+    in reverse order it is S2 -> atom 5 (the thiol of CS); without the option both orders give the same 6 matches.
+    (The model enumerates in node-list order, VF2 in its own: the implementation shows the same dependence on the atom
+    order of the SMILES — corpus/regress/C05/partial_capped.json.) *)
+Theorem C05_partial_capped_order_dependent_refuted :
+  exists (host host' : hostg) (pat : molg),
+    same_graph host host' /\ gnodes host' <> gnodes host /\
+    pmax_of (Some 100%N) = 1%N /\
+    @partial_matches (thr_of (Some 100%N)) 0%N host pat = Some [[(2%N, 3%N)]] /\
+    @partial_matches (thr_of (Some 100%N)) 0%N host' pat = Some [[(2%N, 5%N)]] /\
+    (exists r r', @partial_matches (thr_of None) 0%N host pat = Some r /\ @partial_matches (thr_of None) 0%N host' pat = Some r' /\
+                  length r = 6%nat /\ Permutation r r').
+Proof. exact thm_partial_capped_order_dependent_refuted. Qed.
+Print Assumptions C05_partial_capped_order_dependent_refuted.
+
+(** 17. SynReactor(partial=True), exhaustive strategy, no result limit ([pmax_val = 0]: embed_threshold not given), every cap:
+    the SET of raw partial matches does not depend on the insertion order of the substrate's atoms and bonds nor on the
+    orientation of the stored bonds (both raise the ValueError, or both return the same set).  Per pattern component the
+    exhaustive search lists the same embeddings — or nothing, past the cap, for both writings —, and the combination /
+    back-tracking stage depends on these lists only as sets.  With 15 (renumbering): any rewriting of the substrate SMILES.
+    (Strategies comp / bt inside the engine, re-ordering of the pattern: compared on every run, not proved.) *)
+Theorem C05_partial_matches_order_independent :
+  forall (TH : Thr) (host host' : hostg) (pat : molg),
+    pmax_val = 0%N -> same_graph host host' ->
+    match partial_matches 0%N host pat, partial_matches 0%N host' pat with
+    | Some r, Some r' => forall m, In m r <-> In m r'
+    | None, None => True
+    | _, _ => False
+    end.
+Proof. exact thm_partial_matches_order_independent. Qed.
+Print Assumptions C05_partial_matches_order_independent.
